@@ -413,7 +413,7 @@ def stmt_start(out):
             return k + 1
     return 0
 
-def rule_exc(tk, F, may_throw, exc_ret):
+def rule_exc(tk, F, may_throw, exc_ret, ret_type='HandledEnum'):
     """EXC: after each statement that contains a call of a may-throw callee insert
        `if (g_exc) return <exc_ret>;` ; `if (C)` with a may-throw call in C is hoisted into a temp."""
     out = []; i = 0; tmp = 0
@@ -437,6 +437,13 @@ def rule_exc(tk, F, may_throw, exc_ret):
         if t == ';':
             s = stmt_start(out)
             seg = out[s:]
+            if has_throw(seg) and seg and seg[0] == 'return' and len(seg) > 1:
+                # return f(x);  ->  { T __r = f(x); if (g_exc) return EXC; return __r; }   (the catch/caller sees the exception first)
+                tmp += 1; L = t.line; v = '__exc_r%d' % tmp
+                expr = seg[1:]
+                del out[s:]
+                out += [T(x, L) for x in ['{', ret_type, v, '=']] + expr + [T(';', L)] + [T(x, L) for x in ret] + [T(x, L) for x in ['return', v, ';', '}']]
+                F.hit('EXC'); i += 1; continue
             out.append(t)
             if has_throw(seg) and not (seg and seg[0] == 'return'):
                 # do not split a `for(...;...;...)` header: stmt_start handles depth
